@@ -55,10 +55,12 @@ def explore(ctx, spec, bdir, episodes, seed, tag):
     if os.path.exists(slices):
         os.remove(slices)
     os.environ['VERIF_SLICES'] = slices
+    os.environ['VERIF_SLICE_KINDS'] = ','.join(spec.get('slices', []))
     try:
         results, crashes, log = ctl.run_families(ctx, bdir, spec['families'], episodes, seed)
     finally:
         os.environ.pop('VERIF_SLICES', None)
+        os.environ.pop('VERIF_SLICE_KINDS', None)
     hits = []
     for r in results:
         for v in r.get('violations', []):
